@@ -647,8 +647,13 @@ void h_jsonstring_eq(void) {
 void h_string_comparers(void) {
   struct str a = mkstr(0), b = mkstr(0), z = mkstr(1);
   _Bool la = in_bool(), lb = in_bool();
+  /* the user's string may be a view of the variant's own buffer (a prefix of a linked literal, the C-string view of a stored
+   * string): equality is still decided by (length, bytes), never by the address alone */
+  _Bool alias = in_bool();
+  if (alias) { __CPROVER_assume(b.n <= a.n); b.p = a.p; }
   _Bool same = spec_same(a, b);
   COVER(same && a.n == SMAX); COVER(!same && a.n == b.n); COVER(a.n != b.n);
+  COVER(alias && !same); COVER(alias && same && a.n > 0);
   struct Comparer_JsonString_void cb, ca;
   Comparer_JsonString_void__ctor__JsonString(&cb, as_js(b, lb));
   Comparer_JsonString_void__ctor__JsonString(&ca, as_js(a, la));
